@@ -60,7 +60,7 @@ Example C11_ex_append5 :
 Proof. vm_compute. reflexivity. Qed.
 
 (* ==================== proofs, update, reload (second round) ==================== *)
-From LE Require Import RMT.Proof RMT.NodeProofs RMT.IndexProofs RMT.ProofSoundTop RMT.ProofCompleteTop RMT.Reload.
+From LE Require Import RMT.Proof RMT.NodeProofs RMT.IndexProofs RMT.ProofSoundTop RMT.ProofCompleteTop RMT.Reload RMT.MultiLists RMT.MultiFinal.
 
 (* The (layer, index) addressing of the Go code: node (k, i) of l carries the LIP-0031 root of the slice
    l[i*2^k, (i+1)*2^k); a node whose right half is empty has the value of its left child, otherwise it is the branch
@@ -113,29 +113,38 @@ Qed.
 (* Queries are leaf POSITIONS in the model ([Some (0, pos)]).  The Go GenerateProof takes leaf HASHES and resolves them
    through a single-valued hash -> location index; that resolution is outside the model and is unambiguous only when the
    node hashes of the tree are pairwise distinct (known finding c11:seq:stale-hash-index for repeated values + Update). *)
-(* PARTIAL (one query).  Full statement aimed at: for every list of leaf positions, GenerateProof followed by VerifyProof
-   against mroot l is true.  Proved: for ONE queried leaf, every tree size 1 <= n <= 2^29, with the store answering
-   node (k, i) by the value of that node ([node_of]).  Missing: several queries at once (the prover merges adjacent
-   sibling pairs in one step where the verifier takes two; the lock-step simulation is not proved) — tied by the
-   correspondence runs (all subsets of every tree with n <= 8, random beyond). *)
-Theorem C11_proof_complete_single_query_partial : forall (n : N), size_ok n ->
+(* COMPLETENESS, any subset of leaves: for every tree size 1 <= n <= 2^29 and every non-empty ascending list of leaf
+   positions ps, GenerateProof on the store view [node_of l] returns (n, leaf indexes of ps, sibs) and VerifyProof of
+   the leaf values at ps with that proof accepts against the LIP-0031 root of l.  (Prover and verifier are shown to
+   process every level of the tree with the same emission / next-level functions; RMT/Multi*.v.)
+   Hypothesis on the hash: the equality test is exact. *)
+Theorem C11_proof_complete : forall (n : N), size_ok n ->
   forall (D Hsh : Type) (hempty : Hsh) (hleaf : D -> Hsh) (hbranch : Hsh -> Hsh -> Hsh) (heqb : Hsh -> Hsh -> bool),
-  (forall a, heqb a a = true) ->
-  forall (l : list D), len l = n -> forall pos, pos < n -> forall x, nth_error l (N.to_nat pos) = Some x ->
-  exists sibs, generate_proof (node_of hempty hleaf hbranch l) n [Some (0, pos)] = Ok (n, [leaf_idx n pos], sibs) /\
-               verify_proof hbranch heqb [hleaf x] n [leaf_idx n pos] sibs (mroot hempty hleaf hbranch l) = true.
-Proof. exact @proof_complete_single. Qed.
+  (forall a, heqb a a = true) -> (forall a b, heqb a b = true -> a = b) ->
+  forall (l : list D), len l = n ->
+  forall ps : list N, (forall p, In p ps -> p < n) -> asc ps -> ps <> [] ->
+  exists sibs, generate_proof (node_of hempty hleaf hbranch l) n (map (fun p => Some (0, p)) ps) = Ok (n, map (leaf_idx n) ps, sibs) /\
+               verify_proof hbranch heqb (map (nval hempty hleaf hbranch l 0) ps) n (map (leaf_idx n) ps) sibs
+                            (mroot hempty hleaf hbranch l) = true.
+Proof. exact @proof_complete_multi. Qed.
 
-(* PARTIAL (one index).  Full statement aimed at: Update(idxs, data) yields the root of the list with all those
-   positions replaced.  Proved: for ONE updated leaf, every tree size: the sibling hashes read from the old tree and the
-   new leaf hash recompute exactly the LIP-0031 root of the modified list.  Missing: several indexes at once. *)
-Theorem C11_update_gives_root_of_modified_list_single_partial : forall (n : N), size_ok n ->
+(* the leaf value of position p is the leaf hash of the p-th element *)
+Theorem C11_leaf_value : forall (D Hsh : Type) (hempty : Hsh) (hleaf : D -> Hsh) (hbranch : Hsh -> Hsh -> Hsh) (l : list D) (i : N) (x : D),
+  nth_error l (N.to_nat i) = Some x -> nval hempty hleaf hbranch l 0 i = hleaf x.
+Proof. exact @nval_leaf. Qed.
+
+(* UPDATE through a proof, any index set: lv is the list after the update (any list of the same length that agrees
+   with l outside the positions ps); Update with the leaf hashes of lv at ps, using the sibling hashes read from the old
+   tree, yields exactly the LIP-0031 root of lv. *)
+Theorem C11_update_gives_root_of_modified_list : forall (n : N), size_ok n ->
   forall (D Hsh : Type) (hempty : Hsh) (hleaf : D -> Hsh) (hbranch : Hsh -> Hsh -> Hsh) (heqb : Hsh -> Hsh -> bool),
-  (forall a, heqb a a = true) ->
-  forall (l : list D), len l = n -> forall pos, pos < n -> forall y,
-  update_root hbranch heqb (node_of hempty hleaf hbranch l) n [leaf_idx n pos] [hleaf y] =
-  Ok (mroot hempty hleaf hbranch (upd l (N.to_nat pos) y)).
-Proof. exact @update_single. Qed.
+  (forall a, heqb a a = true) -> (forall a b, heqb a b = true -> a = b) ->
+  forall (l : list D), len l = n ->
+  forall ps : list N, (forall p, In p ps -> p < n) -> asc ps -> ps <> [] ->
+  forall lv : list D, len lv = n -> (forall q, ~ In (N.of_nat q) ps -> nth_error lv q = nth_error l q) ->
+  update_root hbranch heqb (node_of hempty hleaf hbranch l) n (map (leaf_idx n) ps) (map (nval hempty hleaf hbranch lv 0) ps) =
+  Ok (mroot hempty hleaf hbranch lv).
+Proof. exact @update_multi. Qed.
 
 (* Reload: after appending any non-empty list to a new tree, decoding the stored info record gives back the current
    state, which is (batch root, append path, size) of the list.  The codec round trip of the info record (C08) is the
